@@ -90,6 +90,30 @@ def run(ctx, gen_status):
     ok = rc == 0 and len(lists) == 1 and not lists[0]
     ctx.traces += len(items)
     ctx.obligation('correspondence:roll-amount', ok, '' if ok else 'generated roll amount does not reproduce the placement of _compose_fourier: %s %s' % (lists[:1], out[-300:]))
+    reuse_cases(ctx, ctx.n(2, 20))
+
+
+def reuse_cases(ctx, n):
+    """the bracket must not depend on what the accountant OBJECT computed before (re-used object vs fresh object, same history)"""
+    r = ctx.rng
+    cases = []
+    for n1 in (100, 300, 500):
+        for s_late in (0.8, 0.9):
+            cases.append({'kind': 'reuse', 'acc': 'prv', 'h1': [[1.1, 0.02, n1], [3.0, 0.02, 1500]], 'h2': [[1.1, 0.02, n1], [s_late, 0.02, 1500]],
+                          'd1': 1e-5, 'via': 'assign' if n1 != 300 else 'load', 'more': 0})
+    for _ in range(n):
+        q = r.choice([0.01, 0.02])
+        n1, n2 = r.choice([100, 300]), r.choice([600, 1500])
+        shared = [1.1, q, n1]
+        cases.append({'kind': 'reuse', 'acc': 'prv', 'h1': [shared, [r.choice([2.5, 3.0]), q, n2]], 'h2': [shared, [r.choice([0.8, 0.9]), q, n2]],
+                      'd1': 1e-5, 'via': r.choice(['load', 'assign']), 'more': 0})
+    res = vlib.run_impl('acc_meta.py', {'cases': cases}, timeout=3600)['results']
+    for c, rr in zip(cases, res):
+        ctx.case(c, kind='reused-accountant')
+        if rr.get('error'):
+            ctx.fail('prv-harness-error', rr['error'], c)
+        elif abs(rr['a'] - rr['b']) > 0.03 * (1 + abs(rr['a'])):
+            ctx.fail('prv-depends-on-object-history', 'a re-used PRVAccountant reports %r for a history whose epsilon (fresh accountant) is %r' % (rr['b'], rr['a']), c)
 
 
 def search(ctx):
